@@ -136,10 +136,19 @@ class Norm:
                 if ft["k"] == "param" and ft["name"] in (getattr(self, "_gmap", None) or {}):
                     ft = F.ty(F.strip_refs(self._gmap[ft["name"]]))
                 tup = args[1]
-                if ft["k"] in ("closure", "fndef") and ft["def"] in F.bodies and tup[0] == "agg" and tup[1] == "tuple":
+                fdef = ft.get("def")
+                if ft["k"] == "fndef" and fdef not in F.bodies:
+                    from . import implsel
+
+                    # a trait method named through the trait (`Arc::clone`): the local impl's method
+                    tyi = F.strip_refs(e[6][0])
+                    if F.ty(tyi)["k"] == "param" and F.ty(tyi)["name"] in (getattr(self, "_gmap", None) or {}):
+                        tyi = F.strip_refs(self._gmap[F.ty(tyi)["name"]])
+                    fdef = implsel.fn_item(F, tyi)[0]
+                if ft["k"] in ("closure", "fndef") and fdef in F.bodies and tup[0] == "agg" and tup[1] == "tuple":
                     first = 2 if ft["k"] == "closure" else 1
                     am = {first + i: self.norm(a, argmap, depth + 1) for i, a in enumerate(tup[4])}
-                    return self.ret(ft["def"], am, depth + 1, getattr(self, "_gmap", None))
+                    return self.ret(fdef, am, depth + 1, getattr(self, "_gmap", None))
                 return ("opaque", "%s(..)" % name)
             b = F.body(path)
             if b is not None:
